@@ -135,6 +135,15 @@ class Calculation(UnaryOperation):
             )
         # If we commute a calculation before a projection, the
         # projection also needs to include the calculated column.
+        if self.tag in current.target.columns:
+            # An upstream projection dropped a column with the same tag; the
+            # calculation cannot be applied before that projection.
+            return UnaryCommutator(
+                first=None,
+                second=current.operation,
+                done=False,
+                messages=(f"{current.target} already has a column {self.tag}",),
+            )
         return UnaryCommutator(
             self,
             (
